@@ -758,3 +758,17 @@ def two_switch(rng, pg):
         g["bonds"][n2] = {}
         return g
     return None
+
+
+def scale_specs(ctx, rng, reps=2):
+    """(index, size, class) of the very-long-chain cases this shard has to run (spread over the shards)"""
+    from .snapshot import CLASS_NAMES
+
+    k = 0
+    for _ in range(reps):
+        for nsz in SCALE_SIZES[ctx.tier]:
+            for cls in CLASS_NAMES:
+                seed = rng.randrange(1 << 30)  # drawn on every shard to keep the streams aligned
+                if k % ctx.nshards == ctx.shard:
+                    yield k, nsz, cls, seed
+                k += 1
